@@ -67,6 +67,35 @@ var (
 	aSuiteS  = []string{"", "OCRA-1:HOTP-SHA1-6:QN08", "OCRA-1:HOTP-SHA256-8:C-QA10-PSHA256-S-T1", "OCRA-1:HOTP-SHA512-10:C-QN10-PSHA512-S064-T48H", "OCRA-1:HOTP-SHA1-0:QN08", "OCRA-1:HOTP-SHA1-99999999999999999999:QN08", "OCRA-1:HOTP-SHA1-6:QN08-T99999999999999999H", "OCRA-1:HOTP-SHA1-6:QN08-T9223372036854775807S", "OCRA-1:HOTP-SHA1-6:T", "OCRA-1:HOTP-SHA1-6:TM", "OCRA-1:HOTP-:QN08", "OCRA-1:HOTP:QN08", "OCRA-1:H", "::", strings.Repeat(":", 32768), "OCRA-1:HOTP-SHA1-6:" + strings.Repeat("-T1M", 8192), "OCRA-1:HOTP-SHA1-6:" + strings.Repeat("C-", 30000), "\xff:\xfe:\xfd", "OCRA-1:HOTP-SHA1-6:QN08-PSHA", "OCRA-1:HOTP-SHA1-6:Q", "OCRA-1:HOTP-SHA1-6:S", "OCRA-1:HOTP-SHA1-6:P"}
 )
 
+// editNeighbours returns every single-position edit of s over a small alphabet of traps:
+// letters that case-fold into ASCII (U+017F, U+0131, U+212A), invalid UTF-8, deletion,
+// duplication, a digit, a sign, a separator.
+func editNeighbours(s string) []string {
+	subs := []string{"ſ", "ı", "K", "\xff", "", "9", "+", "-", ":", " "}
+	var out []string
+	for i := 0; i < len(s); i++ {
+		for _, r := range subs {
+			out = append(out, s[:i]+r+s[i+1:])
+		}
+		out = append(out, s[:i]+s[i:i+1]+s[i:]) // duplicate one character
+	}
+	return out
+}
+
+func init() {
+	for _, base := range []string{"OCRA-1:HOTP-SHA1-6:QN08-S12", "OCRA-1:HOTP-SHA256-8:C-QA10-PSHA256-S064-T1M", "OCRA-1:HOTP-SHA512-10:QH10-T48H"} {
+		aSuiteS = append(aSuiteS, editNeighbours(base)...)
+	}
+	// the same traps in the other text-taking operations
+	for _, base := range []string{"GEZDGNBVGY3TQOJQ", "12345678", "0123456789abcdef"} {
+		for i, e := range editNeighbours(base) {
+			if i%3 == 0 {
+				aStrings = append(aStrings, e)
+			}
+		}
+	}
+}
+
 func mkLen(n int, seed byte) []byte {
 	if n < 0 {
 		return nil
@@ -397,7 +426,18 @@ func c10Descs() []desc {
 
 // c10Run evaluates one argument combination: returns normally, no panic, within the statement budget.
 func c10Run(d desc, i int) (args, bad string, ran bool) {
-	args, f := d.at(i)
+	var f func()
+	var apv any
+	func() {
+		// building the arguments already calls the library (NewRawSuite for suite arguments)
+		defer func() { apv = recover() }()
+		irt.SetBudget(c10Budget)
+		args, f = d.at(i)
+	}()
+	irt.SetBudget(0)
+	if apv != nil {
+		return fmt.Sprintf("%s combination %d (while building the arguments)", d.name, i), fmt.Sprintf("panicked: %v", apv), true
+	}
 	if f == nil {
 		return "", "", false
 	}
